@@ -231,9 +231,111 @@ def inline_namedtuples(tree, modname, ref):
                 x, ast.AnnAssign) and isinstance(x.target, ast.Name)]
             if fields and not any(isinstance(x, FUNC) for x in st.body):
                 classes[st.name] = fields
+    # X = namedtuple("X", ["a", "b"]) / namedtuple("X", "a b")
+    for st in tree.body:
+        if isinstance(st, ast.Assign) and len(st.targets) == 1 and isinstance(
+                st.targets[0], ast.Name) and st.targets[0].id not in known \
+                and isinstance(st.value, ast.Call) and ast.unparse(
+                    st.value.func).split(".")[-1] == "namedtuple" and len(
+                        st.value.args) == 2 and not st.value.keywords:
+            spec = st.value.args[1]
+            fields = None
+            if isinstance(spec, ast.Constant) and isinstance(spec.value, str):
+                fields = spec.value.replace(",", " ").split()
+            elif isinstance(spec, (ast.List, ast.Tuple)) and all(
+                    isinstance(e, ast.Constant) and isinstance(e.value, str)
+                    for e in spec.elts):
+                fields = [e.value for e in spec.elts]
+            if fields:
+                classes[st.targets[0].id] = fields
     if not classes:
         return 0
     n = 0
+    # a local that is only ever read through the fields of one of these
+    # tuples, bound once by a for loop or a plain assignment: the binding
+    # unpacks, the field reads become the names
+    bysig = {}
+    for cname, fields in classes.items():
+        bysig[cname] = set(fields)
+    for func in [x for x in ast.walk(tree) if isinstance(x, FUNC)]:
+        locs = {x.id for x in ast.walk(func) if isinstance(x, ast.Name)} | {
+            a.arg for a in ast.walk(func) if isinstance(a, ast.arg)}
+        cands = {}
+        for x in ast.walk(func):
+            if isinstance(x, ast.Name) and isinstance(x.ctx, ast.Store):
+                cands.setdefault(x.id, []).append(x)
+        for name, stores in cands.items():
+            loads = [x for x in ast.walk(func) if isinstance(x, ast.Name)
+                     and x.id == name and isinstance(x.ctx, ast.Load)]
+            if not loads:
+                continue
+            attrs = []
+            ok = True
+            for l in loads:
+                par = None
+                for y in ast.walk(func):
+                    if isinstance(y, ast.Attribute) and y.value is l:
+                        par = y
+                if par is None or not isinstance(par.ctx, ast.Load):
+                    ok = False
+                    break
+                attrs.append(par)
+            if not ok:
+                continue
+            used = {a.attr for a in attrs}
+            owners = [c for c, fs in bysig.items() if used <= fs]
+            if len(owners) != 1:
+                continue
+            fields = classes[owners[0]]
+            # the binding statements
+            binds = []
+            for st0 in stores:
+                bind = None
+                for y in ast.walk(func):
+                    if isinstance(y, (ast.For, ast.AsyncFor)) and \
+                            y.target is st0:
+                        bind = ("for", y)
+                    elif isinstance(y, ast.Assign) and len(y.targets) == 1 \
+                            and y.targets[0] is st0 and not isinstance(
+                                y.value, (ast.Tuple, ast.List)):
+                        bind = ("assign", y)
+                binds.append(bind)
+            if not binds or any(b is None for b in binds):
+                continue
+            names = {}
+            for f_ in fields:
+                nm = f_ if f_ not in locs else f"{name}_{f_}"
+                if nm in locs:
+                    nm = f"_{name}_{f_}"
+                names[f_] = nm
+            for st0, bind in zip(stores, binds):
+                tgt = ast.Tuple(elts=[ast.Name(names[f_], ast.Store())
+                                      for f_ in fields], ctx=ast.Store())
+                ast.copy_location(tgt, st0)
+                if bind[0] == "for":
+                    bind[1].target = tgt
+                else:
+                    bind[1].targets = [tgt]
+                    v = bind[1].value
+                    # X._make(E) is E
+                    if isinstance(v, ast.Call) and isinstance(
+                            v.func, ast.Attribute) and v.func.attr == \
+                            "_make" and isinstance(v.func.value, ast.Name) \
+                            and v.func.value.id in classes and len(
+                                v.args) == 1:
+                        bind[1].value = v.args[0]
+            amap = {id(a): a for a in attrs}
+
+            class A(ast.NodeTransformer):
+                def visit_Attribute(self, node):
+                    if id(node) in amap:
+                        return ast.copy_location(ast.Name(
+                            names[node.attr], ast.Load()), node)
+                    return self.generic_visit(node)
+            func.body = [A().visit(b) for b in func.body]
+            ast.fix_missing_locations(func)
+            locs |= set(names.values())
+            n += 1
 
     class T(ast.NodeTransformer):
         def visit_Call(self, node):
@@ -293,6 +395,30 @@ def _walk_own(func):
             if isinstance(c, FUNC + (ast.Lambda, ast.ClassDef)):
                 continue
             stack.append(c)
+
+
+def _own_defs(func):
+    """(statement list, def) for the functions defined in the function's
+    own blocks (not inside further nested functions)"""
+    out = []
+
+    def rec(lst):
+        for st in lst:
+            if isinstance(st, FUNC):
+                out.append((lst, st))
+                continue
+            if isinstance(st, ast.ClassDef):
+                continue
+            for fld in ("body", "orelse", "finalbody"):
+                sub = getattr(st, fld, None)
+                if isinstance(sub, list) and sub and isinstance(
+                        sub[0], ast.stmt):
+                    rec(sub)
+            if isinstance(st, ast.Try):
+                for h in st.handlers:
+                    rec(h.body)
+    rec(func.body)
+    return out
 
 
 def _returns(func):
@@ -527,9 +653,54 @@ def renest_lifted(tree, modname, ref):
     return n
 
 
+def expand_partialmethods(tree):
+    """`name = partialmethod(f, a, b)` in a class body is `def name(self,
+    <the remaining parameters of f>): return self.f(a, b, <them>)`"""
+    n = 0
+    for cls in [x for x in ast.walk(tree) if isinstance(x, ast.ClassDef)]:
+        meths = {m.name: m for m in cls.body if isinstance(m, FUNC)}
+        for i, st in enumerate(cls.body):
+            if not (isinstance(st, ast.Assign) and len(st.targets) == 1
+                    and isinstance(st.targets[0], ast.Name) and isinstance(
+                        st.value, ast.Call) and ast.unparse(
+                            st.value.func).split(".")[-1] == "partialmethod"
+                    and st.value.args and isinstance(
+                        st.value.args[0], ast.Name)
+                    and st.value.args[0].id in meths
+                    and not st.value.keywords):
+                continue
+            f = meths[st.value.args[0].id]
+            bound = st.value.args[1:]
+            a = f.args
+            if a.vararg or a.kwarg or a.kwonlyargs or a.posonlyargs or \
+                    a.defaults or len(a.args) < 1 + len(bound) or isinstance(
+                        f, ast.AsyncFunctionDef):
+                continue
+            rest = a.args[1 + len(bound):]
+            call = ast.Call(func=ast.Attribute(
+                value=ast.Name(a.args[0].arg, ast.Load()), attr=f.name,
+                ctx=ast.Load()), args=list(bound) + [
+                    ast.Name(p_.arg, ast.Load()) for p_ in rest], keywords=[])
+            new = ast.FunctionDef(
+                name=st.targets[0].id, args=ast.arguments(
+                    posonlyargs=[], args=[ast.arg(a.args[0].arg)] + [
+                        ast.arg(p_.arg) for p_ in rest], kwonlyargs=[],
+                    kw_defaults=[], defaults=[]),
+                body=[ast.Return(value=call)], decorator_list=[],
+                returns=None, type_comment=None)
+            if hasattr(f, "type_params"):
+                new.type_params = []
+            ast.copy_location(new, st)
+            ast.fix_missing_locations(new)
+            cls.body[i] = new
+            n += 1
+    return n
+
+
 def inline_helpers(tree, modname, ref, rounds=3):
     known = set(ref.get("functions", []))
     total = renest_lifted(tree, modname, ref)
+    total += expand_partialmethods(tree)
     for _ in range(rounds):
         classes = {}
         modfuncs = {}
@@ -545,8 +716,25 @@ def inline_helpers(tree, modname, ref, rounds=3):
         n = 0
         # properties the reference does not know: `self.p` -> expression
         n += _inline_properties(tree, modname, classes, known)
+        from .normalize import function_table
+        quals = {id(f): q for q, f in function_table(tree, modname).items()}
         for owner, func in _functions_with_owner(tree):
-            n += _inline_in_function(func, owner, classes, modfuncs, known)
+            n += _inline_in_function(func, owner, classes, modfuncs, known,
+                                     quals.get(id(func)))
+        # local closures every call of which was inlined
+        for owner, func in _functions_with_owner(tree):
+            q = quals.get(id(func))
+            if not q:
+                continue
+            for lst, st in _own_defs(func):
+                if f"{q}.{st.name}" in known:
+                    continue
+                inside = {id(x) for x in ast.walk(st)}
+                if not any(isinstance(x, ast.Name) and x.id == st.name
+                           and id(x) not in inside for x in ast.walk(func)):
+                    lst.remove(st)
+                    if not lst:
+                        lst.append(ast.copy_location(ast.Pass(), st))
         total += n
         if not n:
             break
@@ -901,12 +1089,33 @@ def _inline_properties(tree, modname, classes, known):
     return n
 
 
-def _inline_in_function(func, owner, classes, modfuncs, known):
+def _inline_in_function(func, owner, classes, modfuncs, known, qual=None):
     n = 0
+    # local closures the reference does not know (`def send(frame): return
+    # self.ec.roundtrip_packet(frame, ...)` introduced to de-duplicate):
+    # defined once, at the top level of this function, only ever called
+    local = {}
+    if qual is not None:
+        for _, st in _own_defs(func):
+            if isinstance(st, FUNC) and f"{qual}.{st.name}" not in known \
+                    and not st.decorator_list:
+                uses = [x for x in ast.walk(func) if isinstance(x, ast.Name)
+                        and x.id == st.name]
+                callee = [c for c in ast.walk(func) if isinstance(
+                    c, ast.Call) and isinstance(c.func, ast.Name)
+                    and c.func.id == st.name]
+                inside = {id(x) for x in ast.walk(st)}
+                if uses and len(uses) == len(callee) and not any(
+                        id(u) in inside for u in uses) and not any(
+                            isinstance(x, (ast.Nonlocal, ast.Global))
+                            for x in ast.walk(st)):
+                    local[st.name] = st
 
     def helper_of(call):
         if not isinstance(call, ast.Call):
             return None
+        if isinstance(call.func, ast.Name) and call.func.id in local:
+            return local[call.func.id], False
         r = _resolve(call, owner, classes, modfuncs, known)
         if r is None or r[0] is func:
             return None
@@ -1134,11 +1343,99 @@ def _inline_in_function(func, owner, classes, modfuncs, known):
             ast.fix_missing_locations(s_)
         return res or [ast.copy_location(ast.Pass(), st)]
 
+    def with_helper(st):
+        """`with self.h(a) as T: BODY` where h is a @contextmanager
+        generator with exactly one `yield V` statement: h's body with the
+        yield replaced by `T = V; BODY`"""
+        if not isinstance(st, (ast.With, ast.AsyncWith)) or len(
+                st.items) != 1:
+            return None
+        it = st.items[0]
+        r = helper_of(it.context_expr)
+        if r is None:
+            return None
+        h, is_m = r
+        want = "asynccontextmanager" if isinstance(st, ast.AsyncWith) \
+            else "contextmanager"
+        if want not in _decorators(h) or isinstance(
+                h, ast.AsyncFunctionDef) != isinstance(st, ast.AsyncWith):
+            return None
+        ys = [x for x in _walk_own(h) if isinstance(
+            x, (ast.Yield, ast.YieldFrom))]
+        if len(ys) != 1 or isinstance(ys[0], ast.YieldFrom) or _returns(h):
+            return None
+        pb = _prepare_body(h, it.context_expr, is_m)
+        if pb is None:
+            return None
+        pro, body = pb
+        mine = {x.id for x in ast.walk(func) if isinstance(x, ast.Name)} | {
+            a.arg for a in ast.walk(func) if isinstance(a, ast.arg)}
+        incomp = {id(y) for b in pro + body for c in ast.walk(b)
+                  if isinstance(c, (ast.ListComp, ast.SetComp, ast.DictComp,
+                                    ast.GeneratorExp)) for y in ast.walk(c)}
+        theirs = {x.id for b in pro + body for x in ast.walk(b)
+                  if isinstance(x, ast.Name) and isinstance(x.ctx, ast.Store)
+                  and id(x) not in incomp}
+        tnames = {x.id for x in ast.walk(it.optional_vars)
+                  if isinstance(x, ast.Name)} if it.optional_vars else set()
+        if (mine - tnames) & theirs:
+            return None
+        done = [False]
+
+        def repl(stmts, in_loop):
+            res = []
+            for s_ in stmts:
+                if isinstance(s_, ast.Expr) and isinstance(
+                        s_.value, ast.Yield):
+                    if in_loop:
+                        return None
+                    if it.optional_vars is not None:
+                        res.append(ast.copy_location(ast.Assign(
+                            targets=[_clone(it.optional_vars)],
+                            value=s_.value.value or ast.Constant(None)),
+                            s_))
+                    res.extend(st.body)
+                    done[0] = True
+                    continue
+                if any(isinstance(x, ast.Yield) for x in ast.walk(s_)):
+                    if isinstance(s_, FUNC + (ast.ClassDef,)):
+                        return None
+                    loop = isinstance(s_, (ast.For, ast.While, ast.AsyncFor))
+                    for fld in ("body", "orelse", "finalbody"):
+                        sub = getattr(s_, fld, None)
+                        if isinstance(sub, list) and sub and isinstance(
+                                sub[0], ast.stmt):
+                            r2 = repl(sub, in_loop or loop)
+                            if r2 is None:
+                                return None
+                            setattr(s_, fld, r2)
+                    if isinstance(s_, ast.Try):
+                        for hd in s_.handlers:
+                            r2 = repl(hd.body, in_loop)
+                            if r2 is None:
+                                return None
+                            hd.body = r2
+                res.append(s_)
+            return res
+        new = repl(body, False)
+        if new is None or not done[0] or any(
+                isinstance(x, ast.Yield) and x is not None and not any(
+                    x is y for b in st.body for y in ast.walk(b))
+                for b in new for x in ast.walk(b)):
+            return None
+        out = pro + new
+        for s_ in out:
+            ast.fix_missing_locations(s_)
+        return out
+
     def stmt_inline(st):
         rep = bool_loop(st)
         if rep is not None:
             return rep
         rep = bool_if(st)
+        if rep is not None:
+            return rep
+        rep = with_helper(st)
         if rep is not None:
             return rep
         # for T in helper(args): BODY   (generator helper)
@@ -1408,10 +1705,19 @@ def unroll_literal_loops(func, known_locals):
                 i += 1
 
     def unroll(st):
+        if isinstance(st, ast.For) and isinstance(
+                st.iter, ast.Constant) and isinstance(
+                    st.iter.value, str) and 1 <= len(st.iter.value) <= 8:
+            # a loop over the characters of a literal
+            st = ast.copy_location(ast.For(
+                target=st.target, iter=ast.Tuple(
+                    elts=[ast.Constant(value=c) for c in st.iter.value],
+                    ctx=ast.Load()), body=st.body, orelse=st.orelse), st)
+            ast.fix_missing_locations(st)
         if not isinstance(st, ast.For) or st.orelse or not isinstance(
                 st.iter, (ast.Tuple, ast.List)) or not (
                     1 <= len(st.iter.elts) <= 4 or (
-                        len(st.body) == 1 and len(st.iter.elts) <= 16)):
+                        len(st.body) <= 2 and len(st.iter.elts) <= 16)):
             return None
         tnames = [x.id for x in ast.walk(st.target)
                   if isinstance(x, ast.Name)]
@@ -1442,6 +1748,10 @@ def unroll_literal_loops(func, known_locals):
         return out
     visit(func.body)
     if n:
+        from .normalize import fold_constants
+        fold_constants(func)
+        # `name = "pB"; setattr(self, name, ...)`: literal temporaries
+        inline_temporaries(func, known_locals)
         literal_attr_calls(func)
     return n
 
@@ -1546,7 +1856,21 @@ def inline_temporaries(func, known_locals):
             # only checked for plain names assigned later in the function
             reads = {y.id for y in ast.walk(v) if isinstance(y, ast.Name)}
             rebound = False
+            # `t = value.value; value = t`: the statement that uses the
+            # temporary may itself re-bind what the value reads (its right
+            # side is evaluated first)
+            own_targets = set()
+            for a_ in ast.walk(func):
+                if isinstance(a_, ast.Assign) and any(
+                        y is l for l in loads for y in ast.walk(a_.value)):
+                    if all(any(y is l for y in ast.walk(a_.value))
+                           for l in loads):
+                        for t_ in a_.targets:
+                            for y in ast.walk(t_):
+                                own_targets.add(id(y))
             for x in ast.walk(func):
+                if id(x) in own_targets:
+                    continue
                 if isinstance(x, ast.Name) and isinstance(
                         x.ctx, ast.Store) and x.id in reads and hasattr(
                             x, "lineno") and x.lineno > st.lineno and any(
